@@ -38,7 +38,9 @@ Theorem C09_decref_bounded : forall ops,
 Proof. exact decref_bounded. Qed.
 Print Assumptions C09_decref_bounded.
 
-(* "never reuses an id for a different object on the same connection": the allocation log has pairwise distinct
+(* (ids of both kinds: Referenceables get the next number of the connection's counter, bound methods its negation --
+   getTrackerForMyCall, read from the source -- in one table: Send x with x < 0 is a bound method)
+   "never reuses an id for a different object on the same connection": the allocation log has pairwise distinct
    clids, maps each clid to one object, only grows, and the export table is a partial bijection inside it *)
 Theorem C09_no_reuse : forall ops,
   let s := run init ops in
